@@ -69,7 +69,8 @@ CLAIMS = {
              'unchanged, so the outcome cannot depend on statements adapted earlier. The layout of $-expressions ($name, $obj.attr, $f(..), $d[..], $name;, $$, '
              '% text) into placeholders and argument tuples/dicts in order is BOUNDED (statements of <= 3/4 segments from 9 kinds x 5 styles), counted separately.',
         note='Symbolic contract precondition: no "$" in the text (str.index forks on ValueError); statements with $ are only covered by the bounded layout contract. '
-             'Evaluation of $expr in the caller frame is not covered.'),
+             'Evaluation of $expr in the caller frame and raw_sql() fragments inside queries only BOUNDED (never counted as proved): 48 raw SQL statements through every entry point on real SQLite '
+             '(12 shapes of $-expression, 7 parameter types through one statement text, $$ / % / quotes), hand-written answers, every ordered pair run with caches emptied before the pair only.'),
     'C31': dict(
         text='Proof for ALL strings (key parts) that Bag._reduce_composite_pk is uniquely decodable and therefore injective on tuples of equal arity: the real function '
              'run on symbolic strings gives enc(a),enc(b),... with one replace chain; local decoding conditions discharged by z3, lifted by the Lean lemma.',
@@ -124,7 +125,8 @@ CLAIMS = {
         text='Finite-domain proof by complete enumeration: the set of in-place mutators of dict and list is obtained by probing CPython at start-up and cross-checked '
              'with a hand-written list; for every method of dict / list on TrackedDict / TrackedList / TrackedArray: mutators (incl. += *= |=, slice assignment, sort, reverse, '
              'popitem ...) report the change to the owner, give the builtin\'s result and wrap container arguments so that later nested changes are reported; non-mutating '
-             'methods report nothing. Entity._attr_changed_ for every object status. End-to-end persistence of each mutator at nesting depth 1..4 on a real session is BOUNDED.',
+             'methods report nothing. Entity._attr_changed_ for every object status. End-to-end persistence of each mutator at nesting depth 1..4 on a real session is BOUNDED; '
+             'so are values moved into a loaded container from another object / attribute (13 ways x 5 origins) followed by a later nested change.',
         note='Ground obligations. The mutator list is tied to the running CPython (3.12): a new mutator in a later Python shows up as a start-up discrepancy (exit 3).'),
     'C34': dict(
         category='other',
@@ -147,7 +149,9 @@ CLAIMS = {
              'attribute was read and the reloaded value differs, UnrepeatableReadError is raised and the observed value is not replaced (db_set: nothing at all changes); otherwise '
              'the new value is installed while the session\'s own unflushed write survives; volatile attributes carry no repeatable-read bit (_initialize_bits_); Attribute.__get__ '
              'sets the read bit exactly for attributes not yet written. The phantom rule for fully loaded collections is checked under C12.',
-        note='Per-reload contracts only: interleavings with concurrent committed writers (the schedules quantifier) are outside this technique and not claimed. A volatile attribute '
+        note='Per-reload contracts; end to end only BOUNDED (never counted as proved): 5 attribute types x ordinary / boundary / missing values x 10 ways the object became known x a foreign '
+             'change x 4 ways of reading again (one known finding: None values of a new object are forgotten after the INSERT), and the observed-collection scenarios. Interleavings with concurrent '
+             'committed writers (the schedules quantifier) are outside this technique and not claimed. A volatile attribute '
              'with an unflushed own write at reload time is excluded (not reachable through the API: queries flush first).'),
     'C20': dict(
         category='other',
@@ -205,7 +209,7 @@ CLAIMS = {
     'C15': dict(
         category='other',
         text='BOUNDED decision table executed end to end on real SQLite with foreign keys enforced: for every relationship shape (one-to-many, one-to-one with the column on either side, '
-             'many-to-many) x cascade_delete option (default / True / False) x reverse side required / optional x dependents present or not x loaded or not x obj.delete() / Query.delete() / '
+             'many-to-many) x cascade_delete option (default / True / False) x reverse side required / optional x reference declared on the root entity or on a subclass x dependents present or not x loaded or not x obj.delete() / Query.delete() / '
              'Query.delete(bulk=True) the real Entity._delete_ / flush / generated schema behave as the property states: cascading dependents are deleted (in the session and in the database), '
              'optional references are cleared, a required dependent without cascade refuses the delete at the call with ConstraintError (bulk: database error) and nothing changes, and the '
              'committed database has no dangling reference (PRAGMA foreign_key_check + anti-join). Also the finite table: Attribute.linked default and the ON DELETE clause in the DDL follow the rule.',
@@ -221,17 +225,18 @@ CLAIMS = {
         text='PARTIAL: finite proof (ghost order) on the real Entity._save_ / _save_principal_objects_ over every reference graph of 3 objects with 2 reference slots each and '
              'created / modified statuses: every referenced created object is written before the object referring to it, each once, a cycle among created objects raises '
              'UnresolvableCyclicDependency, the queue ends empty; SessionCache.flush round shape (before-hooks, remove_m2m, saves, add_m2m, after-hooks). BOUNDED end to end: every valid script of '
-             '<= 3 (thorough: 5) operations over an 18-operation alphabet (creates with / without references, re-pointing in both directions, deletes, many-to-many link / unlink / create / '
-             'delete) on real SQLite with immediate foreign keys: orderable scripts commit and the database equals a reference model, cyclic ones raise and leave the database unchanged.',
-        note='Acceptance by the database is checked on SQLite only and only for the enumerated scripts (bounded). One known finding (unique key reused by a re-created object that is saved '
-             'principal-first before the pending DELETE).'),
+             '<= 3 (thorough: 5) operations over a 22-operation alphabet (creates with / without references, re-pointing in both directions, a required reference without cascade, edits of a plain attribute, '
+             'deletes, many-to-many link / unlink / create / delete), also with everything loaded beforehand so that the script is one flush, on real SQLite with immediate foreign keys: orderable scripts commit and the database equals a reference model, cyclic ones raise and leave the database unchanged.',
+        note='Acceptance by the database is checked on SQLite only and only for the enumerated scripts (bounded). Two known findings (unique key reused by a re-created object that is saved '
+             'principal-first before the pending DELETE; re-point an object, delete its former parent, delete the object: DELETE parent is emitted first).'),
     'C26': dict(
         text='PARTIAL proof: normalize_name of every provider returns a string of length min(len(name), max_name_len) and every get_default_*_name function (table, m2m table, column, m2m '
              'column, index, foreign key names; every branch) returns a string within max_name_len, for ARBITRARY names (symbolic strings, lengths in z3); the real Table / DBIndex / ForeignKey / '
              'Constraint constructors refuse a used name and leave the registry unchanged (finite). BOUNDED: 6 model families mapped on real SQLite: create_tables succeeds, PRAGMA table_info / '
              'index_list / foreign_key_list match hand-written expectations (columns, NOT NULL, primary keys, unique and plain indexes, composite and self-referencing foreign keys, '
-             'single-table inheritance, custom names), names distinct, check_tables passes on the created schema; 9 model families x PostgreSQL / MySQL / Oracle: DDL objects generated '
-             'from the real schema: every name within max_name_len, names pairwise distinct, or the mapping is refused with DBSchemaError.',
+             'single-table inheritance, custom names), names distinct, check_tables passes on the created schema; 10 model families x PostgreSQL / MySQL / Oracle: DDL objects generated '
+             'from the real schema: every name within max_name_len, names pairwise distinct, every table once and every foreign key declared by the entity model exactly once after both of its tables '
+             '(self references, reference cycles, composite keys), or the mapping is refused with DBSchemaError.',
         note='Catalog introspection on SQLite only; for server dialects the DDL text only (providers built without a connection). lower() / upper() assumed length-preserving. '
              'Two Oracle known findings (sequence name of schema-qualified tables; sequence / trigger name longer than 30).'),
     'C29': dict(
